@@ -316,6 +316,8 @@ def sampling(repo: Repo, rep: Report, bits: Optional[int]) -> None:
     except Undecided as ex:
         rep.undecide("RNG-3", str(ex))
         bad = "undecided"
+    except Raised as ex:
+        bad = f"randint({a}, {b}) on a legal interval raises {ex.what}"
     if bad and bad != "undecided":
         rep.finding("RNG-3", DR, "randint", "randint", bad, repo.mod(DR).func("randint").lineno)
     elif not bad:
@@ -399,6 +401,8 @@ def sampling(repo: Repo, rep: Report, bits: Optional[int]) -> None:
             rep.ok("RNG-6", "shuffle: draw scripts <-> permutations is a bijection for 0..4 items")
     except Undecided as ex:
         rep.undecide("RNG-6", str(ex))
+    except Raised as ex:
+        rep.finding("RNG-6", DR, "choice/shuffle", "choice/shuffle", f"choice or shuffle of a non-empty sequence raises {ex.what}")
     try:
         bad = None
         for x in (0, 1, D // 2, D - 1):
